@@ -171,6 +171,12 @@ public:
 	outfile.close();
 	if (!ok)
 	  return false;
+	if (!outfile)
+	  {
+	    // Buffered data may only reach the file when it is closed.
+	    std::cerr << output_body_file << ": " << strerror(errno) << "\n";
+	    return false;
+	  }
 	const string inf_file_name = output_body_file + ".inf";
 	if (!create_inf_file(inf_file_name, crc.get(), entry))
 	  {
